@@ -6,6 +6,8 @@ PROPS = [json.loads(l)['id'] for l in open(os.path.join(ROOT, 'properties.jsonl'
 
 TECH = 'TLA+ specification; TLC bounded model check of the group model + TLC trace validation of recorded executions of the real code'
 CLAIMED = {
+ 'C01': dict(text='class-exhaustive plus randomized conformance to the total reference outcome of the specification: one representative per input class (digit counts, every DF x length, boundary values of every arithmetic field, byte classes) as [line, line, sentinel] through the real reader thread in a build with overflow checks and in a release-like build, under the -U x -R x -f product and two dozen display / numeric option values, and through both CLI binaries; TLC validates: no panic / error, exit 0, every well-formed later line (decided by the oracle) present in the table.',
+             note='TLA+ cannot prove absence of panics in Rust; the verdict is bounded-exhaustive over input classes + random, not a proof over all byte strings (DESIGN 7). Non-termination would show as a tool timeout and is investigated by hand.', ref='5 C01'),
  'C02': dict(text='TLC decides for every fed line, from its bytes alone (Clean/Strip/LenAgrees/ParityOK), whether it is a frame; validated per event: a non-frame leaves the table untouched, an accepted nine-format frame appears in the table, the public get_message agrees with the oracle on Some/None and on the digit sequence. Lines: every DF x both lengths x time-stamp prefix, digit counts 0..64, thousands of decorated / case-mixed variants incl. non-ASCII and NUL.',
              note='decoration invariance follows because the oracle reads the digit sequence only and every event is judged against it; acceptance of lines that are not valid UTF-8 is left open (DESIGN 3.4)', ref='5 C02'),
  'C03': dict(text='per-event TLC validation that the set of changed / created rows is within {Address(frame)} for shuffled frames of all nine formats among other aircraft, address 0 dropped, row.icao = key, get_icao = oracle; plus the AP/AA field swept over 2^24 values per format through the public get_icao and judged by TLC in run-length form (thorough: all values, quick: every 61st).',
